@@ -13,6 +13,7 @@ import (
 // VerifyFunction generates all obligations of one function under its contract.
 func (e *Engine) VerifyFunction(fn *ssa.Function, fc *FuncContract) (vc *VC) {
 	vc = NewVC(e, fn)
+	curDefs = vc.defs
 	vc.RootFC = fc
 	defer func() {
 		if r := recover(); r != nil {
@@ -121,13 +122,19 @@ func (e *Engine) VerifyFunction(fn *ssa.Function, fc *FuncContract) (vc *VC) {
 		}
 		env.bindResults(fn, rt, res)
 		for i, c := range ensures {
-			g, err := env.evalBool(c.Expr)
+			gs, err := env.evalConjuncts(c.Expr)
 			if err != nil {
 				vc.contractError(c, err)
 				continue
 			}
-			o := vc.oblige("ensures", fmt.Sprintf("%s/ensures#%d", key, i+1), c.Tags, ex.pc, g, ex.pos, c.Text)
-			o.Watch = watch
+			for j, g := range gs {
+				name := fmt.Sprintf("%s/ensures#%d", key, i+1)
+				if len(gs) > 1 {
+					name = fmt.Sprintf("%s/ensures#%d.%d", key, i+1, j+1)
+				}
+				o := vc.oblige("ensures", name, c.Tags, ex.pc, g, ex.pos, c.Text)
+				o.Watch = watch
+			}
 		}
 		for _, c := range onret {
 			if c.Expr == nil {
@@ -307,6 +314,7 @@ func (e *Engine) VerifyLemma(ld *LemmaDef) *VC {
 		}
 	}
 	vc := NewVC(e, anyFn)
+	curDefs = vc.defs
 	vc.RootKey = "lemma." + ld.Pkg + "." + ld.Name
 	st := vc.newState()
 	env := &Env{vc: vc, st: st, old: st, pc: True, vars: map[string]Val{}, pkg: ld.Pkg}
